@@ -268,8 +268,31 @@ pub fn uci(ctx: &mut Ctx) -> String {
     out
 }
 
+/// the two mate scores at remaining depth 0, read from the engine itself on two fixed mated positions
+pub fn mate_scores() -> (i16, i16) {
+    use std::sync::OnceLock;
+    static M: OnceLock<(i16, i16)> = OnceLock::new();
+    *M.get_or_init(|| {
+        let mut g = MoveGenerator::with_cache_capacity(64);
+        // black is mated: R5k1/5ppp/8/8/8/8/8/4K3 b ; white is mated: the mirror
+        let mut b1 = crate::util::Pos::from_fen("R5k1/5ppp/8/8/8/8/8/4K3 b - - 0 1").setup();
+        let mut b2 = crate::util::Pos::from_fen("4k3/8/8/8/8/8/5PPP/r5K1 w - - 0 1").setup();
+        let w = evaluate::score(&mut b1, &mut g, Color::Black, 0);
+        let b = evaluate::score(&mut b2, &mut g, Color::White, 0);
+        (w, b)
+    })
+}
+
 pub fn mat(ctx: &mut Ctx) -> String {
-    format!("mat {}", evaluate::board_material_score(&ctx.board))
+    let v = evaluate::board_material_score(&ctx.board);
+    let mut out = format!("mat {}", v);
+    // C18 decision predicate: the static score stays strictly inside the two mate scores (read from
+    // the engine itself at remaining depth 0, where a mate scores least), for legal material
+    let (w, b) = mate_scores();
+    if !(b < v && v < w) {
+        out.push_str(&format!("\n! C18 static score {} is not strictly between the mate scores {} and {} in [{}]", v, b, w, snap(&ctx.board)));
+    }
+    out
 }
 
 pub fn score(ctx: &mut Ctx, depth: u8) -> String {
